@@ -53,6 +53,18 @@ ENTRIES = {
   text="Lean theorems over the reals: for every closed-form spreading pressure regenerated from the code (Henry, Langmuir, DS/TS-Langmuir, BET, GAB, Quadratic, Freundlich, TemkinApprox) p*dPi/dp = n(p), Pi(0)=0 and Pi->0, Pi(b)-Pi(a) = integral of n/x, strict monotonicity; for point isotherms the exact fold of spreading_pressure_at (hand-written model, run against the real method in exact rationals) equals the integral of the Henry-continued piecewise-linear interpolant for any number of points, with additivity, monotonicity and p*Pi' = interpolant as corollaries.",
   note=TB + "Partial: the quad-based models (Toth, Jensen-Seaton, DR, DA) are compared with an independent quadrature of the class's own loading/x (scipy.integrate.quad is residue); IEEE rounding. Known finding S13 (TemkinApprox offset n_m*theta/2, proved as a witness); S7, S14 fixed.",
   technique="Lean 4 proof (HasDerivAt / interval integrals in Mathlib) about translator-generated definitions and a correspondence-checked fold model; quadrature oracle as failing-input search"),
+ "C14": dict(
+  text="Lean theorems about the per-point transforms and parameter formulas regenerated from characterisation/*.py on every run (BET, Langmuir, t-plot, alpha-s, DR/DA) and about a hand-written model of window selection and least squares that is run at exact rationals against the real raw functions: ols on exactly linear data returns slope and intercept for any abscissae with two distinct values; BET/Langmuir/DA transforms of the governing equation are exactly linear and the parameter formulas invert them (n_m, C, K, p_m, area with N_A*1e-18, V0, E; zero residual at the generating exponent); t-plot/alpha-s slopes, areas, volumes; alpha-s against itself returns the reference area; the selected window is exactly {lo <= p < hi} for any limits incl. None/0, refusal iff fewer than three points, Rouquerol maximum = first decrease of n(1-p), minimum = first p >= 0.1 p_max.",
+  note=TB + "Partial: scipy.stats.linregress is assumed to be ordinary least squares (compared with the exact model to 1e-7); the DA exponent search (minimize_scalar) is numerical - known finding S29 (search ends at the upper bound 3.0 for low generating exponents); find_linear_sections (automatic t-plot regions) is outside the property. S19 (numeric reference_area) fixed in the repository.",
+  technique="Lean 4 proof about translator-generated formulas (Mathlib real analysis) and a correspondence-checked window/regression model; synthetic-isotherm recovery oracle as failing-input search"),
+ "C16": dict(
+  text="Lean theorems about a statement-by-statement model of psd_pygapsdh / psd_bjh / psd_dollimore_heal and the cumulative curve (run at exact rationals against the real functions on the same arrays, and through psd_mesoporous on isotherms) and about the Kelvin / thickness formulas regenerated from the source: widths = 2(t + r_K) at the measured pressures and strictly increasing in pressure for Halsey, Harkins-Jura and zero thickness; zero thickness => pore volumes = successive changes of adsorbed volume for all three methods, summing to the total change; distribution x width increments = volumes; cumulative curve ends at the last adsorbed volume and is the running sum; a single step gives a single peak at the Kelvin width; Kelvin radius solves the Kelvin equation for each meniscus geometry; geometry tables; method dispatch and default limits.",
+  note=TB + "Partial: tabulated thickness isotherms (SiO2, carbon black) and user-supplied callables are not modelled; CoolProp properties are inputs; IEEE rounding measured (<= 2e-11).",
+  technique="Lean 4 proof (structural induction over the recurrences; real analysis for Kelvin/thickness) about a correspondence-checked model and translator-generated formulas; SI-unit Kelvin oracle as failing-input search"),
+ "C19": dict(
+  text="Lean theorems about the generated slope-to-enthalpy factor, inverse temperatures and Whittaker brackets (regenerated from the source) and the least-squares model: for any list of positive temperatures with two distinct values, in any order, Clausius-Clapeyron regression of a van 't Hoff family returns dH exactly; every affinity-scaled isotherm family (Langmuir, Toth, dual-site Langmuir as generated from modelling/*.py) is such a family; multiplying pressures by a unit factor does not change the result; the Whittaker chain equals lambda + dH_vap + RT with first bracket p_sat*K, independent of loading for Langmuir.",
+  note=TB + "Partial: pressure_at of point isotherms is linear interpolation (2e-3), Toth inverse is numerical; CoolProp (p_sat, p_c, p_t, h_vap) values are inputs; the skip rule of the Whittaker loop and initial_enthalpy_point are decided by the oracle only (no theorem).",
+  technique="Lean 4 proof (least squares + real analysis) about translator-generated formulas and a correspondence-checked regression model; van 't Hoff synthetic isotherms as failing-input search"),
  "C20": dict(
   text="Registry regenerated from adsorbates.json and default.db; kernel-decided: no alias occurs twice (n log n sorted check lifted by a proved lemma), JSON list = database, every adsorbate found by its own name; proved for every registry: unique aliases => find returns the owner, absent key => not found; fallback logic of the accessors never silent. Exhaustive correspondence of Adsorbate.find and the isotherm constructor over every alias x 4 case variants.",
   note=TB + "Partial: CoolProp consistency (rho = rho_bar*M, p_triple <= p_sat <= p_crit, monotone, h_vap > 0, units, call-order independence) is measured, not proved. String -> key encoding is the translator's, re-derived in Lean at run time. S17, S21 fixed.",
